@@ -193,6 +193,10 @@ Proof.
     - intros i Hi. rewrite B; [reflexivity | lia | intros Hj; apply in_seq in Hj; lia].
     - lia. }
   destruct l; try exact Hgen; clear Hgen; exec; cbn [fst snd leaf_pure wf_leaf] in *.
+  all: try absorb1.
+  all: try match goal with |- context [st1 ?G ?a ?b ?hv] => is_var hv;
+         assert (W0 : wrote hv (st1 G a b hv) b (G (get hv a))) by (refine (st1_wrote G a b hv _ _); [sd | rewrite Hwf; sd]);
+         pose proof (st1_next G a b hv) as N0; set (h1 := st1 G a b hv) in *; clearbody h1; nxt end.
   all: absorb; repeat split; cbn [fst snd]; try apply seq_NoDup; try apply seq_length;
     [ rdv; reflexivity | nxg; apply below_seq; lia | apply above_seq; lia
     | let i := fresh "i" in let Hi := fresh "Hi" in intros i Hi; frv i; reflexivity | nxg; lia ].
